@@ -33,6 +33,9 @@ def target(kind):
         def like(x):
             return -np.inf if x[0] < -2.0 else -0.5 * float(np.sum((x - 0.7) ** 2)) / 0.5
         return 2, (lambda u: 8.0 * u - 4.0), like
+    if kind == "edge":      # posterior mass piled up at the face x0 = +4 (u0 = 1) and straddling the seam of a periodic coordinate
+        return 2, (lambda u: 8.0 * u - 4.0), (lambda x: -0.5 * (min(abs(float(x[0]) - 4.0), abs(float(x[0]) + 4.0)) ** 2) / 0.25
+                                              - 0.5 * float(x[1]) ** 2 / 0.5)
     if kind == "weak":      # weakly informative: beta goes 0 -> 1 in one step
         return 1, (lambda u: 5.0 * u - 2.5), (lambda x: -0.5 * float(np.sum(x ** 2)))
     if kind == "wide":      # unit Gaussian under U(-10,10)^2: a tight volume-variation target holds beta
@@ -41,10 +44,21 @@ def target(kind):
 
 
 # cells of the "same temperature" oracle (first in `search`): the two families in which the reweighter takes its rarely used exits
-TEMP_CELLS = [dict(kernel="rwm", resample="mult", clustering=False, target="weak", volume_variation=None, periodic=None, n=32, ess_ratio=2.0),
+TEMP_CELLS = [dict(kernel="rwm", resample="mult", clustering=False, target="edge", volume_variation=None, periodic=None, reflective=[0]),
+              dict(kernel="rwm", resample="syst", clustering=False, target="edge", volume_variation=None, periodic=[0], reflective=None),
+              dict(kernel="tpcn", resample="mult", clustering=False, target="edge", volume_variation=None, periodic=[0], reflective=[1]),
+              dict(kernel="tpcn", resample="syst", clustering=True, target="edge", volume_variation=None, periodic=None, reflective=[0, 1])]
+
+CELLS = [dict(kernel="rwm", resample="mult", clustering=False, target="weak", volume_variation=None, periodic=None, n=32, ess_ratio=2.0),
               dict(kernel="tpcn", resample="syst", clustering=False, target="wide", volume_variation=0.05, periodic=None, n=32, ess_ratio=2.0),
               dict(kernel="tpcn", resample="mult", clustering=True, target="plain", volume_variation=None, periodic=None, n=24, ess_ratio=1.2),
               dict(kernel="rwm", resample="syst", clustering=False, target="wide", volume_variation=0.04, periodic=None, n=32, ess_ratio=1.7)]
+
+# cells of the record oracle: folded coordinates WITH posterior mass at the declared face, so that accepted moves cross it
+FOLD_CELLS = [dict(kernel="rwm", resample="mult", clustering=False, target="edge", volume_variation=None, periodic=None, reflective=[0]),
+              dict(kernel="rwm", resample="syst", clustering=False, target="edge", volume_variation=None, periodic=[0], reflective=None),
+              dict(kernel="tpcn", resample="mult", clustering=False, target="edge", volume_variation=None, periodic=[0], reflective=[1]),
+              dict(kernel="tpcn", resample="syst", clustering=True, target="edge", volume_variation=None, periodic=None, reflective=[0, 1])]
 
 CELLS = [dict(kernel=k, resample=r, clustering=c, target=t, volume_variation=v, periodic=p)
          for (k, r, c, t, v, p) in [("tpcn", "mult", True, "bimodal", None, None), ("rwm", "syst", False, "plain", None, None),
@@ -60,9 +74,46 @@ def run_cell(cell, seed):
         warnings.simplefilter("ignore")
         s = Sampler(prior, like, d, n_particles=n, clustering=cell["clustering"], sample=cell["kernel"], resample=cell["resample"],
                     volume_variation=cell["volume_variation"], ess_ratio=1.7 if cell["volume_variation"] else 2.0,
-                    periodic=cell["periodic"], n_steps=1, n_max_steps=3, random_state=seed)
+                    periodic=cell["periodic"], reflective=cell.get("reflective"), n_steps=1, n_max_steps=3, random_state=seed)
         s.run(n_total=2 * n, progress=False)
     return s, like
+
+
+def check_records(cell, seed):
+    """every stored particle is a coherent record INSIDE the prior support: u in [0,1]^d, x == prior_transform(u) (bit for bit),
+    logl == log_likelihood(x) (bit for bit) — on complete real runs with periodic / reflective coordinates and posterior mass at the
+    declared face (accepted moves cross it and are folded back).  Also counts how many stored points lie within 0.02 of a folded face
+    (so that the cell is known to exercise the fold)."""
+    from tempest import Sampler
+    d, prior, like = target(cell["target"])
+    with _quiet(), warnings.catch_warnings():
+        warnings.simplefilter("ignore")
+        s = Sampler(prior, like, d, n_particles=32, clustering=cell["clustering"], sample=cell["kernel"], resample=cell["resample"],
+                    periodic=cell["periodic"], reflective=cell.get("reflective"), n_steps=2, n_max_steps=6, random_state=seed)
+        s.run(n_total=96, progress=False)
+    st = s.state
+    out, near = [], 0
+    folded = list(cell["periodic"] or []) + list(cell.get("reflective") or [])
+    for t in range(st.get_history_length()):
+        U, X, Lh = st.get_history("u", t), st.get_history("x", t), st.get_history("logl", t)
+        for j in range(len(U)):
+            u, x = np.asarray(U[j], dtype=float), np.asarray(X[j], dtype=float)
+            near += int(any(min(u[i], 1.0 - u[i]) < 0.02 for i in folded))
+            if np.any(u < 0.0) or np.any(u > 1.0):
+                out.append(f"batch {t + 1} particle {j}: stored u = {u.tolist()} outside the unit cube")
+            elif np.asarray(prior(u), dtype=float).tobytes() != x.tobytes():
+                out.append(f"batch {t + 1} particle {j}: stored x = {x.tolist()} is not prior_transform(u) = "
+                           f"{np.asarray(prior(u)).tolist()} (u = {u.tolist()}): the record was evaluated at a point outside the prior "
+                           f"support and folded afterwards")
+            elif common.f2hex(float(like(x))) != common.f2hex(float(Lh[j])):
+                out.append(f"batch {t + 1} particle {j}: stored logl {float(Lh[j])!r} is not the likelihood of the stored x ({float(like(x))!r})")
+            if len(out) >= 3:
+                return out, near
+    xs, w, l = s.posterior(trim_importance_weights=False)
+    lo, hi = np.asarray(prior(np.zeros(d))), np.asarray(prior(np.ones(d)))
+    if np.any(xs < lo - 1e-12) or np.any(xs > hi + 1e-12):
+        out.append(f"posterior() returned a sample outside the prior support: {xs[np.argmax(np.max(np.abs(xs), axis=1))].tolist()}")
+    return out, near
 
 
 def check_same_temperature(cell, seed, n_total_factor=4):
@@ -145,6 +196,25 @@ def suite_same_temperature(tier, prop):
             c.count("target_" + cell["target"])
             if probs:
                 c.disagree(input={"cell": cell, "seed": seed}, impl=probs[0], model="pool quantities at the recorded beta (C01_X_same_temperature)")
+    return c
+
+
+def suite_records_folded(tier):
+    """`check_records` as a suite: one case per stored particle of complete real runs over FOLD_CELLS"""
+    c = common.Corr("record-coherence-folded-runs", "exact oracle on the real code (bytes of x = T(u), bits of logl = L(x), u in the cube)")
+    for r in range(1 if tier == "quick" else 6):
+        for k, cell in enumerate(FOLD_CELLS):
+            seed = (common.seed() * 6151 + 1000 * r + 37 * k + 9) % (2 ** 31 - 1)
+            try:
+                probs, near = check_records(cell, seed)
+            except np.linalg.LinAlgError:
+                c.count("aborted_singular_mode(F24)")
+                continue
+            c.case((k, seed), near > 0)
+            c.count("stored_points_within_0.02_of_a_folded_face", near)
+            c.count(f"{cell['kernel']}:per={cell['periodic']}:refl={cell.get('reflective')}")
+            if probs:
+                c.disagree(input={"cell": cell, "seed": seed}, impl=probs[0], model="x = prior_transform(u), logl = L(x), u in [0,1]^d (C07)")
     return c
 
 
@@ -290,6 +360,22 @@ def check_streams(cell, seed):
 def search(which, tier):
     """failing inputs of the contract on the real code (empty on a correct tree)"""
     found = []
+    # 00. (posterior) folded coordinates with mass at the face: every stored / returned particle is a coherent record in the support
+    if which == "posterior":
+        for k, cell in enumerate(FOLD_CELLS):
+            seed = (common.seed() * 15485863 + 29 * k + 3) % (2 ** 31 - 1)
+            try:
+                probs, _near = check_records(cell, seed)
+            except np.linalg.LinAlgError:
+                continue
+            except Exception as e:  # noqa
+                probs = [f"raised {type(e).__name__}: {e}"]
+            if probs:
+                f = {"kind": "record-coherence-folded", "cell": cell, "seed": seed, "what": probs[0], "all": probs[:3],
+                     "replay": {"contract": "records", "cell": cell, "seed": seed}}
+                found.append(f)
+        if found:
+            return found
     # 0. one temperature per iteration (weights handed on, logz, ESS) — the rarely taken exits of the reweighter first
     for k, cell in enumerate(TEMP_CELLS):
         seed = (common.seed() * 104729 + 17 * k + 5) % (2 ** 31 - 1)
@@ -324,6 +410,9 @@ def search(which, tier):
 
 
 def replay(which, cell, seed):
+    if which == "records":
+        probs, _ = check_records(cell, seed)
+        return {"fails": bool(probs), "detail": probs[:3]}
     if which == "temperature":
         probs, _ = check_same_temperature(cell, seed)
         return {"fails": bool(probs), "detail": probs[:5]}
